@@ -441,7 +441,7 @@ type c16Verdict struct {
 // round from the test: with cursor ≤ last the request is issued and (when it succeeds) the batch
 // delivered; with cursor > last neither happens.  A comparison that cannot tell cursor = last
 // from cursor = last + 1 fails one of the two.
-func c16LoopVerdicts(r *Run, fn *ssa.Function, q *c16Request, cb ssa.Instruction, delta int64) []c16Verdict {
+func c16LoopVerdicts(r *Run, fn *ssa.Function, q *c16Request, _ []ssa.Instruction, delta int64) []c16Verdict {
 	cmps := c16Cmps(r, fn, q.cursor, q.bound)
 	keys := map[string]bool{}
 	for _, m := range cmps {
@@ -506,8 +506,8 @@ func c16LoopVerdicts(r *Run, fn *ssa.Function, q *c16Request, cb ssa.Instruction
 			r.Valuations++
 			if class == "cursor>last" {
 				reach := r.D.Walk(fn, sg, h, map[*ssa.BasicBlock]bool{h: true})
-				ok := !reach.Has(cb) && !reach.Has(q.issue)
-				out = append(out, c16Verdict{"runWorker:range-done[" + class + "]", where, fmt.Sprintf("no further request once every index of the range was delivered: %s lets the request be issued=%v, a batch be delivered=%v", state, reach.Has(q.issue), reach.Has(cb)), ok})
+				ok := !reach.Has(q.issue)
+				out = append(out, c16Verdict{"runWorker:range-done[" + class + "]", where, fmt.Sprintf("no further request once the cursor has passed the last index of the range: %s lets the request be issued=%v (what is handed to the callback then: runWorker:range-complete)", state, reach.Has(q.issue)), ok})
 				continue
 			}
 			// the context is live and the request succeeds
@@ -517,8 +517,8 @@ func c16LoopVerdicts(r *Run, fn *ssa.Function, q *c16Request, cb ssa.Instruction
 				}
 			}
 			reach := r.D.Walk(fn, sg, h, map[*ssa.BasicBlock]bool{h: true})
-			ok := reach.Has(cb) && reach.Has(q.issue)
-			out = append(out, c16Verdict{"runWorker:range-pending[" + class + "]", where, fmt.Sprintf("while an index of the range is outstanding the remainder is requested and delivered: %s lets the request be issued=%v, the batch be delivered=%v", state, reach.Has(q.issue), reach.Has(cb)), ok})
+			ok := reach.Has(q.issue)
+			out = append(out, c16Verdict{"runWorker:range-pending[" + class + "]", where, fmt.Sprintf("while an index of the range is outstanding the remainder is requested: %s lets the request be issued=%v (where its response goes: runWorker:batch.* / runWorker:kept)", state, reach.Has(q.issue)), ok})
 		}
 	}
 	return out
@@ -539,7 +539,7 @@ type c16Conv struct {
 	genWhy       string // non-empty: the generator's δ is undecided
 	reqWhy       string // non-empty: the worker's request is undecided
 	q            *c16Request
-	cb           ssa.Instruction
+	cbs          []ssa.Instruction
 	worker       *ssa.Function
 	oddGenerator bool // generator and request disagree, and the worker's loop sides with the request
 }
@@ -563,18 +563,18 @@ func c16Convention(r *Run) *c16Conv {
 	for _, f := range append([]*ssa.Function{fn}, fn.AnonFuncs...) {
 		reqs = append(reqs, CallsTo(f, "iface(scanner.LogClient).GetRawEntries")...)
 	}
-	cbs := CallsTo(fn, "dyn(p3)")
-	if len(reqs) != 1 || len(cbs) != 1 {
+	_, cbs := c16Callbacks(r, fn)
+	if len(reqs) != 1 || len(cbs) == 0 {
 		cv.reqWhy = fmt.Sprintf("the worker makes %d get-entries requests and %d callback invocations", len(reqs), len(cbs))
 		return cv
 	}
-	cv.cb = cbs[0]
+	cv.cbs = asInstrs(cbs)
 	cv.q = c16ReqOf(r, fn, reqs[0])
 	cv.reqWhy = cv.q.why
 	cv.req = cv.q.delta
 	if cv.genWhy == "" && cv.reqWhy == "" && cv.gen != cv.req {
 		saved := r.Valuations
-		cv.oddGenerator = c16AllOK(c16LoopVerdicts(r, fn, cv.q, cv.cb, cv.req)) && !c16AllOK(c16LoopVerdicts(r, fn, cv.q, cv.cb, cv.gen))
+		cv.oddGenerator = c16AllOK(c16LoopVerdicts(r, fn, cv.q, cv.cbs, cv.req)) && !c16AllOK(c16LoopVerdicts(r, fn, cv.q, cv.cbs, cv.gen))
 		r.Valuations = saved
 	}
 	return cv
@@ -612,7 +612,7 @@ func c16GenEndCheck(r *Run, gen *ssa.Function, es *ssa.Store, diff LinForm) {
 }
 
 // c16WorkerEndChecks (R2): the request ends at, and the loop runs up to, the last index of the range.
-func c16WorkerEndChecks(r *Run, fn *ssa.Function, req ssa.CallInstruction, cb ssa.Instruction) {
+func c16WorkerEndChecks(r *Run, fn *ssa.Function, req ssa.CallInstruction) {
 	cv := c16Convention(r)
 	if cv.reqWhy != "" || cv.q == nil {
 		r.Fail("runWorker:request.end", r.Where(req), "undecided: "+cv.reqWhy)
@@ -637,7 +637,7 @@ func c16WorkerEndChecks(r *Run, fn *ssa.Function, req ssa.CallInstruction, cb ss
 	default:
 		r.Fail("runWorker:request.end", r.Where(req), fmt.Sprintf("requests up to r.%s, but the last index of the range is r.%s (the generator emits end = start + min(end−start, batch) − 1 %+d): %d index(es) %s at every request", c16Last(cv.req), c16Last(cv.gen), cv.gen, abs64(cv.gen-cv.req), map[bool]string{true: "beyond the range are requested (delivered twice)", false: "of the range are left out of the request"}[cv.req < cv.gen]))
 	}
-	for _, v := range c16LoopVerdicts(r, fn, cv.q, cb, delta) {
+	for _, v := range c16LoopVerdicts(r, fn, cv.q, cv.cbs, delta) {
 		r.Check(v.key, v.ok, v.where, v.detail)
 	}
 	c16FailedRequestRetried(r, fn, cv.q)
